@@ -48,6 +48,111 @@ def ssaO : SMapOps → Bool
   | _ => false
 end
 
+mutual
+/-- the value contains no raw `serialize_key`/`serialize_value` call stream -/
+def noRaw : SVal → Bool
+  | .some v => noRaw v
+  | .newtypeStruct _ v => noRaw v
+  | .seq xs => noRaws xs
+  | .tuple xs => noRaws xs
+  | .tupleStruct _ xs => noRaws xs
+  | .record _ fs => noRawf fs
+  | .map es => noRawe es
+  | .mapRaw _ => false
+  | .newtypeVariant _ _ _ v => noRaw v
+  | .tupleVariant _ _ _ xs => noRaws xs
+  | .structVariant _ _ _ fs => noRawf fs
+  | _ => true
+def noRaws : SVals → Bool
+  | .nil => true
+  | .cons v r => noRaw v && noRaws r
+def noRawf : SFields → Bool
+  | .nil => true
+  | .cons _ _ v r => noRaw v && noRawf r
+def noRawe : SEntries → Bool
+  | .nil => true
+  | .cons k v r => noRaw k && noRaw v && noRawe r
+end
+
+
+mutual
+theorem noRaw_ssa : ∀ (x : SVal), noRaw x = true → structStreamsAlternate x = true
+  | .some v, h => by simp only [noRaw] at h; simp only [structStreamsAlternate]; exact noRaw_ssa v h
+  | .newtypeStruct _ v, h => by simp only [noRaw] at h; simp only [structStreamsAlternate]; exact noRaw_ssa v h
+  | .newtypeVariant _ _ _ v, h => by simp only [noRaw] at h; simp only [structStreamsAlternate]; exact noRaw_ssa v h
+  | .seq xs, h => by simp only [noRaw] at h; simp only [structStreamsAlternate]; exact noRaws_ssa xs h
+  | .tuple xs, h => by simp only [noRaw] at h; simp only [structStreamsAlternate]; exact noRaws_ssa xs h
+  | .tupleStruct _ xs, h => by simp only [noRaw] at h; simp only [structStreamsAlternate]; exact noRaws_ssa xs h
+  | .tupleVariant _ _ _ xs, h => by simp only [noRaw] at h; simp only [structStreamsAlternate]; exact noRaws_ssa xs h
+  | .record _ fs, h => by simp only [noRaw] at h; simp only [structStreamsAlternate]; exact noRawf_ssa fs h
+  | .structVariant _ _ _ fs, h => by simp only [noRaw] at h; simp only [structStreamsAlternate]; exact noRawf_ssa fs h
+  | .map es, h => by simp only [noRaw] at h; simp only [structStreamsAlternate]; exact noRawe_ssa es h
+  | .mapRaw _, h => by simp [noRaw] at h
+  | .none, _ | .unit, _ | .bool _, _ | .int _ _, _ | .f32 _, _ | .f64 _, _ | .char _, _ | .str _, _ | .bytes _, _
+  | .unitStruct _, _ | .unitVariant _ _ _, _ => by simp [structStreamsAlternate]
+theorem noRaws_ssa : ∀ (xs : SVals), noRaws xs = true → ssaS xs = true
+  | .nil, _ => rfl
+  | .cons x r, h => by
+    simp only [noRaws, Bool.and_eq_true] at h
+    simp [ssaS, noRaw_ssa x h.1, noRaws_ssa r h.2]
+theorem noRawf_ssa : ∀ (fs : SFields), noRawf fs = true → ssaF fs = true
+  | .nil, _ => rfl
+  | .cons _ _ x r, h => by
+    simp only [noRawf, Bool.and_eq_true] at h
+    simp [ssaF, noRaw_ssa x h.1, noRawf_ssa r h.2]
+theorem noRawe_ssa : ∀ (es : SEntries), noRawe es = true → ssaE es = true
+  | .nil, _ => rfl
+  | .cons k x r, h => by
+    simp only [noRawe, Bool.and_eq_true] at h
+    simp [ssaE, noRaw_ssa k h.1.1, noRaw_ssa x h.1.2, noRawe_ssa r h.2]
+end
+
+/-! ### one hypothesis for both regimes of R2
+
+`rawOK nar x`: with `nar = false` the value has no raw stream at all (then R2 needs no bound on the number of struct
+fields); with `nar = true` raw streams are allowed as long as they alternate (then the sentinel bound `narrowDT` is
+needed).  The mutual recursion of R2 is written once, for a fixed `nar`. -/
+def rawOK (nar : Bool) (x : SVal) : Bool := if nar then structStreamsAlternate x else noRaw x
+def rawOKs (nar : Bool) (xs : SVals) : Bool := if nar then ssaS xs else noRaws xs
+def rawOKf (nar : Bool) (fs : SFields) : Bool := if nar then ssaF fs else noRawf fs
+def rawOKe (nar : Bool) (es : SEntries) : Bool := if nar then ssaE es else noRawe es
+
+theorem rawOK_some (nar : Bool) (v : SVal) : rawOK nar (.some v) = rawOK nar v := by
+  cases nar <;> simp [rawOK, structStreamsAlternate, noRaw]
+theorem rawOK_newtypeStruct (nar : Bool) (a : String) (v : SVal) : rawOK nar (.newtypeStruct a v) = rawOK nar v := by
+  cases nar <;> simp [rawOK, structStreamsAlternate, noRaw]
+theorem rawOK_newtypeVariant (nar : Bool) (a : String) (i : Nat) (c : String) (v : SVal) :
+    rawOK nar (.newtypeVariant a i c v) = rawOK nar v := by
+  cases nar <;> simp [rawOK, structStreamsAlternate, noRaw]
+theorem rawOK_seq (nar : Bool) (xs : SVals) : rawOK nar (.seq xs) = rawOKs nar xs := by
+  cases nar <;> simp [rawOK, rawOKs, structStreamsAlternate, noRaw]
+theorem rawOK_tuple (nar : Bool) (xs : SVals) : rawOK nar (.tuple xs) = rawOKs nar xs := by
+  cases nar <;> simp [rawOK, rawOKs, structStreamsAlternate, noRaw]
+theorem rawOK_tupleStruct (nar : Bool) (a : String) (xs : SVals) : rawOK nar (.tupleStruct a xs) = rawOKs nar xs := by
+  cases nar <;> simp [rawOK, rawOKs, structStreamsAlternate, noRaw]
+theorem rawOK_tupleVariant (nar : Bool) (a : String) (i : Nat) (c : String) (xs : SVals) :
+    rawOK nar (.tupleVariant a i c xs) = rawOKs nar xs := by
+  cases nar <;> simp [rawOK, rawOKs, structStreamsAlternate, noRaw]
+theorem rawOK_record (nar : Bool) (a : String) (fs : SFields) : rawOK nar (.record a fs) = rawOKf nar fs := by
+  cases nar <;> simp [rawOK, rawOKf, structStreamsAlternate, noRaw]
+theorem rawOK_structVariant (nar : Bool) (a : String) (i : Nat) (c : String) (fs : SFields) :
+    rawOK nar (.structVariant a i c fs) = rawOKf nar fs := by
+  cases nar <;> simp [rawOK, rawOKf, structStreamsAlternate, noRaw]
+theorem rawOK_map (nar : Bool) (es : SEntries) : rawOK nar (.map es) = rawOKe nar es := by
+  cases nar <;> simp [rawOK, rawOKe, structStreamsAlternate, noRaw]
+theorem rawOK_mapRaw (nar : Bool) (ops : SMapOps) : rawOK nar (.mapRaw ops) = (nar && ssaO ops) := by
+  cases nar <;> simp [rawOK, structStreamsAlternate, noRaw]
+theorem rawOKs_cons (nar : Bool) (x : SVal) (r : SVals) : rawOKs nar (.cons x r) = (rawOK nar x && rawOKs nar r) := by
+  cases nar <;> simp [rawOK, rawOKs, ssaS, noRaws]
+theorem rawOKf_cons (nar : Bool) (k : String) (al : Nat) (x : SVal) (r : SFields) :
+    rawOKf nar (.cons k al x r) = (rawOK nar x && rawOKf nar r) := by
+  cases nar <;> simp [rawOK, rawOKf, ssaF, noRawf]
+theorem rawOKe_cons (nar : Bool) (k x : SVal) (r : SEntries) :
+    rawOKe nar (.cons k x r) = (rawOK nar k && rawOK nar x && rawOKe nar r) := by
+  cases nar <;> simp [rawOK, rawOKe, ssaE, noRawe]
+theorem rawOK_true (x : SVal) : rawOK true x = structStreamsAlternate x := rfl
+theorem rawOK_false (x : SVal) : rawOK false x = noRaw x := rfl
+
 theorem ssaO_alternating : ∀ (ops : SMapOps), ssaO ops = true → isAlternating ops = true
   | .nil, _ => rfl
   | .key _ (.value _ rest), h => by
